@@ -318,6 +318,51 @@ Fixpoint fans_out (v : value) (p : path) {struct v} : bool :=
       end
   end.
 
+(* implicit traversal only (DESIGN.md 8.2 D2 as written): the path meets an
+   array at a segment that is not an index into it *)
+Fixpoint fans_out_pure (v : value) (p : path) {struct v} : bool :=
+  match p with
+  | [] => false
+  | s :: r =>
+      match v with
+      | VDoc d =>
+          (fix find (d : list (string * value)) : bool :=
+             match d with
+             | [] => false
+             | (k, x) :: t => if String.eqb k s then fans_out_pure x r else find t
+             end) d
+      | VArr a =>
+          match parse_index s with
+          | Some i =>
+              (fix nth (l : list value) (i : Z) : bool :=
+                 match l with
+                 | [] => true
+                 | x :: t => if (i =? 0)%Z then fans_out_pure x r else nth t (i - 1)%Z
+                 end) a i
+          | None => true
+          end
+      | _ => false
+      end
+  end.
+
+(* The property's domain is D1-D4 as written.  Inside it lungo is known to
+   differ from the reference in four classes of conditions (known_findings.json,
+   property C10); each class is a switch.  With all switches off (`strict`) the
+   classes are excluded: that is the domain `core` on which match_ref is
+   proved.  With all switches on (`lenient`) the domain is D1-D4 itself. *)
+Record flags : Type := {
+  f_type_array : bool;   (* $type "array" under fan-out            C10:type-array-under-fanout *)
+  f_exists : bool;       (* $exists under fan-out, empty array leaf C10:exists-under-fanout-empty-array *)
+  f_size : bool;         (* $size under fan-out                     C10:size-under-fanout *)
+  f_index : bool         (* a numeric segment indexing into an array that holds documents is
+                            not a fan-out (null operands allowed)   C10:null-with-index-into-document-array *)
+}.
+Definition strict : flags := Build_flags false false false false.
+Definition lenient : flags := Build_flags true true true true.
+
+Definition fan_of (fl : flags) (root : value) (p : path) : bool :=
+  if f_index fl then fans_out_pure root p else fans_out root p.
+
 (* D2 operands: non-null scalars *)
 Definition plain_scalar (v : value) : bool :=
   match v with
@@ -329,6 +374,7 @@ Definition good_path (p : path) : bool :=
   forallb (fun s => negb (String.eqb s "")) p.
 
 Section CoreConditions.
+  Variable fanf : value -> path -> bool.
   Variable cop : value -> string -> value -> path -> bool.
 
   Definition core_ops (exps : list (string * value)) (root : value) (p : path) : bool :=
@@ -343,15 +389,15 @@ Section CoreConditions.
     match x with
     | VDoc ((k0, y0) :: rest) =>
         if is_op k0 then core_ops ((k0, y0) :: rest) root p
-        else negb (fans_out root p)
-    | _ => negb (fans_out root p) || plain_scalar x
+        else negb (fanf root p)
+    | _ => negb (fanf root p) || plain_scalar x
     end.
 End CoreConditions.
 
 (* D4 (well-formed arguments) and D2 (restrictions under fan-out), operator by
    operator.  An operator not listed here is outside the covered domain. *)
-Fixpoint core_op (full : bool) (x : value) (op : string) (root : value) (p : path) {struct x} : bool :=
-  let fan := fans_out root p in
+Fixpoint core_op (fl : flags) (x : value) (op : string) (root : value) (p : path) {struct x} : bool :=
+  let fan := fan_of fl root p in
   if is_rel_op op || String.eqb op "$ne" then negb fan || plain_scalar x
   else if String.eqb op "$in" || String.eqb op "$nin" then
     match x with
@@ -359,29 +405,24 @@ Fixpoint core_op (full : bool) (x : value) (op : string) (root : value) (p : pat
     | _ => false
     end
   else if String.eqb op "$exists" then
-    (* under fan-out lungo tests "the merged collection is non-empty": an
-       empty array found at the path does not count (exists_fanout_empty_refuted) *)
-    negb fan || negb (existsb (fun c => match c with VArr [] => true | _ => false end) (rlookup root p))
+    (* finding: under fan-out lungo tests "the merged collection is non-empty";
+       an empty array found at the path does not count *)
+    negb fan || f_exists fl
+    || negb (existsb (fun c => match c with VArr [] => true | _ => false end) (rlookup root p))
   else if String.eqb op "$type" then
-    (* the null type is outside the domain: lungo also selects documents
-       that lack the field (type_null_missing_refuted) *)
     match type_spec x with
     | Some spec =>
-        negb (existsb (fun t => (t =? ty_null)%Z) (snd spec))
-        (* under fan-out lungo merges array leaves into their elements and no
-           longer sees the arrays themselves (type_array_fanout_refuted) *)
-        && (negb fan || negb (existsb (fun t => (t =? ty_array)%Z) (snd spec)))
+        (* finding: under fan-out lungo merges array leaves into their elements
+           and no longer sees the arrays themselves *)
+        negb fan || f_type_array fl || negb (existsb (fun t => (t =? ty_array)%Z) (snd spec))
     | None => false
     end
   else if String.eqb op "$size" then
-    (* under fan-out lungo counts collected result lists as array values
-       (size_fanout_refuted) *)
-    negb fan && match size_arg x with Ok _ => true | _ => false end
+    (* finding: under fan-out lungo counts collected result lists as array values *)
+    (negb fan || f_size fl) && match size_arg x with Ok _ => true | _ => false end
   else if String.eqb op "$all" then
-    (* array operands are outside the domain: lungo requires all operands to
-       be elements, or all to equal the field (all_mixed_refuted) *)
     match x with
-    | VArr vs => negb fan && forallb (fun v => match v with VArr _ => false | _ => true end) vs
+    | VArr vs => negb fan
     | _ => false
     end
   else if String.eqb op "$mod" then
@@ -396,7 +437,7 @@ Fixpoint core_op (full : bool) (x : value) (op : string) (root : value) (p : pat
         (fix go (exps : list (string * value)) : bool :=
            match exps with
            | [] => true
-           | (k, y) :: t => is_op k && core_op full y k root p && go t
+           | (k, y) :: t => is_op k && core_op fl y k root p && go t
            end) exps
     | _ => false
     end
@@ -415,8 +456,8 @@ Fixpoint core_op (full : bool) (x : value) (op : string) (root : value) (p : pat
                          match q with
                          | [] => true
                          | (k, y) :: t =>
-                             (if is_op k then core_op full y k (elem_root e) elem_path
-                              else core_field (core_op full) y (elem_root e) (elem_path ++ split_path k)) && go t
+                             (if is_op k then core_op fl y k (elem_root e) elem_path
+                              else core_field (fan_of fl) (core_op fl) y (elem_root e) (elem_path ++ split_path k)) && go t
                          end) q) es
              | _ => true
              end) (rlookup root p)
@@ -424,7 +465,7 @@ Fixpoint core_op (full : bool) (x : value) (op : string) (root : value) (p : pat
     end
   else false.
 
-Fixpoint core_top (full : bool) (x : value) (k : string) (root : value) {struct x} : bool :=
+Fixpoint core_top (fl : flags) (x : value) (k : string) (root : value) {struct x} : bool :=
   if is_op k then
     let sub (item : value) : bool :=
       match item with
@@ -432,7 +473,7 @@ Fixpoint core_top (full : bool) (x : value) (k : string) (root : value) {struct 
           (fix go (q : list (string * value)) : bool :=
              match q with
              | [] => true
-             | (k', y) :: t => core_top full y k' root && go t
+             | (k', y) :: t => core_top fl y k' root && go t
              end) q
       | _ => false
       end in
@@ -444,20 +485,35 @@ Fixpoint core_top (full : bool) (x : value) (k : string) (root : value) {struct 
            match l with [] => true | i :: t => sub i && all t end) items
     | _ => false
     end
-  else core_field (core_op full) x root (split_path k).
+  else core_field (fan_of fl) (core_op fl) x root (split_path k).
 
-Definition core_filter (full : bool) (root : value) (f : doc) : bool :=
+Definition core_filter (fl : flags) (root : value) (f : doc) : bool :=
   (fix go (q : list (string * value)) : bool :=
      match q with
      | [] => true
-     | (k, y) :: t => core_top full y k root && go t
+     | (k, y) :: t => core_top fl y k root && go t
      end) f.
 
-(* `full` is a historical switch (it used to exclude the operators not yet
-   covered by the proof); no clause depends on it any more *)
-Definition coreb_gen (full : bool) (d f : doc) : bool :=
-  d1 (VDoc d) && d3 (VDoc d) && core_filter full (VDoc d) f.
+Definition coreb_gen (fl : flags) (d f : doc) : bool :=
+  d1 (VDoc d) && d3 (VDoc d) && core_filter fl (VDoc d) f.
 
-Definition coreb (d f : doc) : bool := coreb_gen false d f.
+(* the domain of match_ref: D1-D4 minus the four finding classes *)
+Definition coreb (d f : doc) : bool := coreb_gen strict d f.
 Definition core (d f : doc) : Prop := coreb d f = true.
-Definition core_covered (d f : doc) : Prop := coreb_gen false d f = true.
+Definition core_covered (d f : doc) : Prop := core d f.
+
+(* the property's domain: D1-D4 as written in DESIGN.md 8.2 *)
+Definition domainb (d f : doc) : bool := coreb_gen lenient d f.
+
+(* where a pair lies: in `core`; in D1-D4 but in a finding class (the first
+   class, in the order of the switches, without which the pair is not in the
+   domain); outside D1-D4 *)
+Inductive dclass : Type := DCore | DFinding (signature : string) | DOutside.
+
+Definition domain_class (d f : doc) : dclass :=
+  if coreb d f then DCore
+  else if negb (domainb d f) then DOutside
+  else if negb (coreb_gen (Build_flags false true true true) d f) then DFinding "C10:type-array-under-fanout"
+  else if negb (coreb_gen (Build_flags true false true true) d f) then DFinding "C10:exists-under-fanout-empty-array"
+  else if negb (coreb_gen (Build_flags true true false true) d f) then DFinding "C10:size-under-fanout"
+  else DFinding "C10:null-with-index-into-document-array".
